@@ -38,6 +38,7 @@ def check(ctx):
     seen = set()
     n_attr = n_inplace = 0
     foreign = []
+    called = {e['callee'] for it in scan for e in it.events if e['tag'] == 'call' and len(e['ctx']) >= 1 and e['callee'] != (e['where'].qualname if e['where'] else None)}
     for it in scan:
         for e in it.events:
             if e['tag'] != 'store' or e['where'] is None:
@@ -77,6 +78,11 @@ def check(ctx):
             store = base.store
             prov = base.prov or frozenset()
             cached = [p for p in prov if p.startswith('cached:')]
+            if (len(e['ctx']) == 1 and where.name.startswith('_') and not where.name.startswith('__') and base.is_param
+                    and base.is_param.startswith(where.qualname + ':') and where.qualname in called and store is None and not cached):
+                # a private helper writing into its own parameter, analysed without a caller: the provenance of the argument is
+                # decided where the helper is called (the same statement is evaluated again in each caller's context)
+                continue
             if key in seen:
                 # the same construct seen again from another context: only report a worse classification
                 if not (cached or (store or '').startswith('attr:')):
